@@ -883,6 +883,10 @@ class Intrinsics:
                 zs.append(containers.obj_key(a))
             elif is_boollike(a):
                 zs.append(as_z3bool(a))
+            elif (isinstance(a, Fraction) or is_sym_real(a)) and not is_intlike(a):
+                # c02x: a rational argument (Fraction) keeps its Real sort
+                from .values import as_z3real
+                zs.append(as_z3real(a))
             else:
                 zs.append(as_z3int(a))
         return zs
